@@ -21,6 +21,9 @@ type Writer struct {
 
 var ClosedWriter *Writer
 
+// refused marks, in the row of a pending write, a linked reader that did not accept the write.
+var refused = &Packet{}
+
 func init() {
 	ClosedWriter = NewWriter()
 	ClosedWriter.Close()
@@ -162,10 +165,7 @@ func (w *Writer) Unlink(reader *Reader) bool {
 			}
 
 			for len(w.receives) > 0 && !slices.Contains(w.receives[0], nil) {
-				pck := New(ErrDroppedPacket)
-				if len(w.receives[0]) > 0 {
-					pck = Join(w.receives[0]...)
-				}
+				pck := joinAccepted(w.receives[0])
 
 				w.receives = w.receives[1:]
 
@@ -199,7 +199,7 @@ func (w *Writer) Write(pck *Packet) int {
 		if r.write(New(pck.Payload()), w, w.links[i]) {
 			count++
 		} else {
-			receives[i] = None
+			receives[i] = refused
 		}
 	}
 
@@ -268,7 +268,7 @@ func (w *Writer) receive(pck *Packet, reader *Reader, link uint64) bool {
 
 	if head == 0 {
 		for len(w.receives) > 0 && !slices.Contains(w.receives[0], nil) {
-			pck := Join(w.receives[0]...)
+			pck := joinAccepted(w.receives[0])
 
 			w.receives = w.receives[1:]
 
@@ -278,6 +278,22 @@ func (w *Writer) receive(pck *Packet, reader *Reader, link uint64) bool {
 	}
 
 	return true
+}
+
+// joinAccepted combines what the readers that accepted a write answered. A reader that refused
+// the write contributes nothing; when no reader that accepted it is linked any more, the write
+// is answered with a dropped packet.
+func joinAccepted(receives []*Packet) *Packet {
+	pcks := make([]*Packet, 0, len(receives))
+	for _, pck := range receives {
+		if pck != refused {
+			pcks = append(pcks, pck)
+		}
+	}
+	if len(pcks) == 0 {
+		return New(ErrDroppedPacket)
+	}
+	return Join(pcks...)
 }
 
 func (w *Writer) indexOfReader(reader *Reader) int {
